@@ -48,6 +48,7 @@ fn run_c01(out: &mut Out, tier: &str, rng: &mut Rng) {
     c01::run(out, tier, rng);
     authgen::run_c01_auth(out, tier, rng);
     out.rule.push_str("; authority level: real NetworkAuthority (recv / tick / command clones) with 1-2 hydraulic units whose timeouts are absent / expired / far away: random histories of motion commands, cycles, the unit's own status frames, foreign frames and engine commands");
+    out.rule.push_str("; bursts of 1/16/17/40 client frames + a final stop-all through the real session, command channel and command task; authority configurations include the engine driver and other units of the shipped network");
 }
 
 const AUTH_NOTE: &str = "; authority level: random configurations of known units under the real NetworkAuthority (receive / tick / command clones), random histories of unit frames, the same frames from foreign nodes, random frames, cycles, motion and engine commands, compared event by event with the authority model";
@@ -64,6 +65,7 @@ fn run_c02(out: &mut Out, tier: &str, rng: &mut Rng) {
     c02::run(out, tier, rng);
     authgen::run_generic_auth(out, tier, rng, "motion frames");
     out.rule.push_str(AUTH_NOTE);
+    out.rule.push_str("; the C01 authority histories (1-2 hydraulic units + other units); client bursts through the real command task");
 }
 
 fn run_c07(out: &mut Out, tier: &str, rng: &mut Rng) {
@@ -71,6 +73,7 @@ fn run_c07(out: &mut Out, tier: &str, rng: &mut Rng) {
     // the governor as the engine driver applies it (which reported status, which command, WHICH AGE it is handed on every
     // cycle): the driver-level histories of C08
     drv::run_c08(out, tier, rng);
+    out.rule.push_str("; 33 (quick) / 213 (thorough) further (idle,max,timeout) envelopes off every grid with requested speeds at and around their bounds; the driver-level histories of C08 (which status, command and AGE the Volvo driver hands the governor)");
 }
 
 fn run_c08(out: &mut Out, tier: &str, rng: &mut Rng) {
@@ -92,6 +95,7 @@ fn run_c12(out: &mut Out, tier: &str, rng: &mut Rng) {
     drv::run_c12(out, tier, rng);
     authgen::run_generic_auth(out, tier, rng, "decoding");
     out.rule.push_str(AUTH_NOTE);
+    out.rule.push_str("; every unit frame cut to every DLC followed by the same frame with its 0xFF padding written out, through the real network and authority; unit frames arrive short (DLC 0..7) one time in six in every authority history");
 }
 
 fn run_c15(out: &mut Out, tier: &str, rng: &mut Rng) {
@@ -102,22 +106,26 @@ fn run_c15(out: &mut Out, tier: &str, rng: &mut Rng) {
     // network's command task, also after its signal receiver was overrun and the runtime re-entered it)
     c09::run_runtime(out, tier, rng);
     out.rule.push_str("; consumer side: the real NetworkAuthority with hydraulic units whose timeouts are absent / expired / far away handles every accepted motion command (frames to every unit at acceptance and on the following cycles)");
+    out.rule.push_str("; 1/2/3/5 clients connected at once through the real UnixServer (accept loop included); sessions overrun by 17/40/100 published signals before their first frame; the real Director under the real Runtime as the non-client producer (signal groups incl. groups longer than the signal queue)");
 }
 
 fn run_c14(out: &mut Out, tier: &str, rng: &mut Rng) {
     c14::run(out, tier, rng);
     hs::run(out, tier, rng);
+    out.rule.push_str("; client half: every ClientBuilder option combination over a Unix socket and over TCP and the four convenience functions against a stub daemon that records flags and name");
 }
 
 fn run_c18(out: &mut Out, tier: &str, rng: &mut Rng) {
     c18::run(out, tier, rng);
     hs::run(out, tier, rng);
+    out.rule.push_str("; plain sub-commands (engine <rpm> at and around every bound, engine-shutdown, machine-shutdown); compatible daemons of varying identity (empty / long / multi-byte model and serial); the real glonax-input once per control mode in the quick tier too; ClientBuilder through real sockets");
 }
 
 fn run_c20(out: &mut Out, tier: &str, rng: &mut Rng) {
     authgen::run_c20(out, tier, rng);
     authgen::run_request_pages(out, tier, rng);
     c16::daemon_c20(out, tier, rng);
+    out.rule.push_str("; requests to the own address for every PDU2 number and PDU1 format on data pages 0..3, every third-byte value, DLC 2/1/0, and the served groups from every source address 0..255; the REAL glonaxd on generated configurations (1-3 networks, driver lists of 0..3 entries incl. empty and unknown): address claim at start-up and answers to requests per network");
 }
 
 fn run_c05(out: &mut Out, tier: &str, rng: &mut Rng) {
@@ -135,17 +143,20 @@ fn run_c05(out: &mut Out, tier: &str, rng: &mut Rng) {
     for clients in [2usize, 3] {
         c15::via_server(out, clients);
     }
+    out.rule.push_str("; bursts of 1..64 well-formed frames through the real session, command channel and command task of 1-2 networks; 2 and 3 clients connected at once through the real UnixServer");
 }
 
 fn run_c09(out: &mut Out, tier: &str, rng: &mut Rng) {
     c09::run(out, tier, rng);
     c09::run_runtime(out, tier, rng);
+    out.rule.push_str("; every history runs under the real Runtime (Director scheduled with schedule_io_sub_service, signals through the runtime's channel, commands taken behind the real command task); signal groups incl. groups of 17..40 that overrun the director's receiver");
 }
 
 fn run_c10(out: &mut Out, tier: &str, rng: &mut Rng) {
     authgen::run_c10(out, tier, rng);
     authgen::run_c10_foreign(out, tier, rng);
     authgen::run_c10_timed(out, tier, rng);
+    out.rule.push_str("; every inspected parameter group from four foreign addresses per unit kind, each followed by a cycle; unknown configuration entries with their own timeouts between the units; real-time histories in the quick tier too (timeout 300 ms, silences of 450 ms, the unit repeating the same frame)");
 }
 
 fn run_c06(out: &mut Out, tier: &str, rng: &mut Rng) {
@@ -157,6 +168,7 @@ fn run_c06(out: &mut Out, tier: &str, rng: &mut Rng) {
         c16::concurrent_stress(out, ms);
     }
     out.rule.push_str("; authority level: raw can_frames with every DLC 0..8 injected into the real NetworkAuthority::recv on the emulated bus, followed by a cycle and commands whose frames must still appear");
+    out.rule.push_str("; Request frames for EVERY group number of data page 0 (thorough: all 2^18) to the own / broadcast / another address, pages 0..3 and third-byte values to the own address; every inspected group from every source address 0..255 through the authority; a concurrent flood (bus + command channel, multi-thread executor, ticks every 50 us / 1 ms) followed by liveness probes of the receive, tick and command tasks");
 }
 
 fn main() {
